@@ -5,10 +5,11 @@ import json, os, subprocess, sys, time
 seed, checks = sys.argv[1], sys.argv[2].split(",")
 tier = sys.argv[4] if len(sys.argv) > 4 and sys.argv[3] == "--tier" else "quick"
 V = os.environ.get("VSNAP", "/verif")
+R = os.environ.get("RSNAP", "/repo")   # the tree the snapshot's checks build from
 def sh(*a, **k): return subprocess.run(a, stdout=subprocess.PIPE, stderr=subprocess.STDOUT, text=True, **k)
-assert sh("git", "-C", "/repo", "status", "--porcelain", "--untracked-files=no").stdout.strip() == "", "/repo not clean"
+assert sh("git", "-C", R, "status", "--porcelain", "--untracked-files=no").stdout.strip() == "", R + " not clean"
 patch = os.path.join(seed, "patch.diff") if os.path.isdir(seed) else seed
-r = sh("git", "-C", "/repo", "apply", patch)
+r = sh("git", "-C", R, "apply", patch)
 assert r.returncode == 0, r.stdout
 try:
     for c in checks:
@@ -22,5 +23,5 @@ try:
         os.makedirs("/verif/work/seedlogs", exist_ok=True)
         open("/verif/work/seedlogs/detect.jsonl", "a").write(json.dumps(rec) + "\n")
 finally:
-    sh("git", "-C", "/repo", "checkout", "--", ".")
+    sh("git", "-C", R, "checkout", "--", ".")
     subprocess.run(["rm", "-rf", os.path.join(V, "replays")])
